@@ -196,7 +196,8 @@ def _channel(draw, max_mem, mem_classes):
     wrapper = draw(st.sampled_from(["tdl", "su", "su_pl", "su_pl"]))
     pathloss = None
     if wrapper == "su_pl":
-        pathloss = draw(st.one_of(loguniform(-12, 0), st.just(1.0),
+        pathloss = draw(st.one_of(loguniform(-12, 0), loguniform(-18, -12),
+                                  st.just(1.0),
                                   fl(0.01, 1.0)))
     return dict(delays=delays, powers_dB=powers, offs=offs, Ts=ts,
                 tap_order=list(order), L=draw(st.integers(1, 16)),
@@ -311,17 +312,30 @@ def _my_used_bins(fft, used_eff):
     return [fft - h + i for i in range(h)] + [1 + i for i in range(h)]
 
 
-def _build_ofdm(case, tags):
+def _build_ofdm(case, tags, warm=None):
     from pyphysim.modulators.ofdm import OFDM
     fft, cp, used = case["fft"], case["cp"], case["used"]
     via = case.get("via_set")
     if via:
         o = OFDM(via[0], via[1], via[2])
+        if case.get("xseed", 0) % 5 in (1, 2):
+            # the object is USED with its first configuration (a burst is
+            # modulated and demodulated) before it is re-configured
+            w = np.ones(int(via[2] or via[0]), dtype=complex)
+            # (a copy: demodulate re-shapes the array handed to it, see
+            # _guard_targets)
+            o.demodulate(np.array(o.modulate(w)))
+            from pyphysim.modulators.ofdm import OfdmOneTapEqualizer
+            OfdmOneTapEqualizer(o)
+            tags["used_before_set_parameters"] = True
         if case.get("xseed", 0) % 2 == 0:
             # an equalizer created BEFORE the parameters are changed must
             # follow the OFDM object it was created for
             from pyphysim.modulators.ofdm import OfdmOneTapEqualizer
             o._vpbt_early_equalizer = OfdmOneTapEqualizer(o)
+            if warm is not None and case.get("xseed", 0) % 4 == 0:
+                # ... and was already used with the first configuration
+                warm(o, o._vpbt_early_equalizer)
         if used is None:
             o.set_parameters(fft, cp)
         else:
@@ -473,8 +487,21 @@ def _transmit_and_equalize(case, ctx, o, used_eff, ch, x, tx, n_sym, tags,
     if H is None:
         raise Violation("channel_not_static", "reported taps vary over time "
                         "although Fd = 0", tags)
+    if not np.all(np.isfinite(H)):
+        raise Violation("reported_response_not_finite", "the reported "
+                        "impulse response has non-finite taps", tags)
     Hu = np.abs(H[_my_used_bins(fft, used_eff)])
+    if np.max(Hu) == 0 and float(np.max(np.abs(y))) > 0:
+        raise Violation("reported_response_zero", "the reported impulse "
+                        "response is zero on every used carrier although the "
+                        "channel output is not", tags)
     cond = float(np.max(Hu) / np.min(Hu)) if np.min(Hu) > 0 else math.inf
+    if case.get("xseed", 0) % 7 in (1, 2, 3):
+        # the same response object is asked for another FFT size first (a
+        # plot of the frequency response with finer resolution)
+        ir.get_freq_response(2 * fft)
+        ir.get_freq_response(fft + 3)
+        ctx.label("freq_response_other_size_first")
     demod = o.demodulate(y[:tx.size])
     with np.errstate(divide="ignore", invalid="ignore"):
         # (a zero reported response - known finding - divides by zero; the
@@ -552,7 +579,21 @@ def _chan_tags(case):
 def _check_chan(case, ctx):
     tags = _chan_tags(case)
     memory = tags["memory"]
-    o, used_eff = _build_ofdm(case, tags)
+    def warm(o0, eq0):
+        # one burst through another channel object of the same kind,
+        # equalised with the equalizer created for the first configuration
+        if o0.fft_size <= memory:
+            return
+        chw = _build_channel(case, tags)
+        w = np.ones(int(o0.num_used_subcarriers), dtype=complex)
+        txw = o0.modulate(w)
+        yw = np.asarray(chw.corrupt_data(txw.copy()))
+        with np.errstate(divide="ignore", invalid="ignore"):
+            eq0.equalize_data(o0.demodulate(np.array(yw[:txw.size])),
+                              chw.get_last_impulse_response())
+        ctx.label("equalizer_used_before_set_parameters")
+
+    o, used_eff = _build_ofdm(case, tags, warm)
     ch = _build_channel(case, tags)
     cond_max = 0.0
     for rep in range(int(case.get("n_tx", 1))):
